@@ -282,7 +282,7 @@ Section CalmBlocks.
   Qed.
 
   Lemma calm_items tight its : Forall (Forall CM) its ->
-    forallb (fun it => item_safe tight it && forallb (safe_block o) it) its = true ->
+    forallb (fun it => item_safe tight it && forallb (safe_block o) (item_body it)) its = true ->
     forallb (fun it => match it with
                        | [] => true
                        | h :: rest => forallb (calm ctx o) (gline h) && forallb gcalm rest
@@ -293,9 +293,15 @@ Section CalmBlocks.
     apply andb_prop in Hs as [Hs1 Hs2]. apply andb_prop in Hc as [Hc1 Hc2]. rewrite IH by assumption.
     rewrite andb_true_r. apply andb_prop in Hs1 as [Hl Hs1].
     destruct it as [|h rest]; [reflexivity|]. inversion Hit as [|? ? _ Hr]; subst.
-    cbn [forallb] in Hs1. apply andb_prop in Hs1 as [Hsh Hs1]. apply andb_prop in Hc1 as [Hch Hcr].
-    cbn [item_md_settled]. rewrite (calm_line ctx dir o _ Hch), (calm_seq rest Hr Hs1 Hcr), !andb_true_r.
-    destruct h; try discriminate; cbn [is_paragraph gline safe_block andb] in *; now apply safe_line_kind.
+    apply andb_prop in Hc1 as [Hch Hcr].
+    assert (Hrest : forallb (safe_block o) rest = true /\ lead_kind_stable ctx dir o (gline h) = true /\ is_paragraph h = true).
+    { destruct h as [l|l| | | | | | |]; try discriminate Hl;
+        (destruct l as [|i l];
+         [cbn [item_body] in Hs1; split; [exact Hs1 | split; [now rewrite lead_kind_safe | reflexivity]]
+         |cbn [item_body forallb safe_block] in Hs1; apply andb_prop in Hs1 as [Hsh Hs1];
+          split; [exact Hs1 | split; [now apply safe_line_kind | reflexivity]]]). }
+    destruct Hrest as (Hsr & Hk & Hp).
+    cbn [item_md_settled]. now rewrite Hp, Hk, (calm_line ctx dir o _ Hch), (calm_seq rest Hr Hsr Hcr).
   Qed.
 
   Lemma calm_block : forall b, CM b.
